@@ -1113,6 +1113,13 @@ func (w *c10World) checkBacking(h uint64, contract types.Address, st store.Accou
 			}
 			k := name + " " + z.String()
 			cur := new(big.Int).Sub(bal, sums[z])
+			// plasma, stake and htlc have no method that may keep what it is sent (no fees, no donations): there the
+			// surplus never GROWS either — growth means a deposit was taken without being booked (nobody can ever claim it)
+			if prev := w.surplus[k]; prev != nil && cur.Cmp(prev) > 0 && w.surplusAt[k]+1 == h &&
+				(contract == types.PlasmaContract || contract == types.StakeContract || contract == types.HtlcContract) {
+				w.violation(fmt.Sprintf("deposit-taken-but-not-booked %s %s", name, c10TokenClass(z)), map[string]interface{}{
+					"height": h, "token": z.String(), "liabilities": sums[z].String(), "balance": bal.String(), "surplus_before": prev.String(), "surplus_now": cur.String(), "parts": parts}, nil)
+			}
 			if prev := w.surplus[k]; prev != nil && cur.Cmp(prev) < 0 && w.surplusAt[k]+1 == h {
 				w.violation(fmt.Sprintf("surplus-decreased %s %s", name, c10TokenClass(z)), map[string]interface{}{
 					"height": h, "token": z.String(), "liabilities": sums[z].String(), "balance": bal.String(), "surplus_before": prev.String(), "surplus_now": cur.String(), "parts": parts,
@@ -1863,7 +1870,17 @@ func (w *c10World) actFuse() {
 	if w.bal(a.Addr, types.QsrTokenStandard).Cmp(amt) < 0 {
 		return
 	}
-	w.send(a, types.PlasmaContract, w.wrongToken(a, types.QsrTokenStandard, amt), amt, definition.ABIPlasma.PackMethodPanic(definition.FuseMethodName, ben.Addr), "Fuse("+ben.Name+")", "")
+	benAddr, benName := ben.Addr, ben.Name
+	if w.hrng == nil {
+		w.hrng = rand.New(rand.NewSource(fw.SeedFor(w.c.Seed, "c10-hostile-deposits/"+w.id)))
+	}
+	if w.hrng.Intn(8) == 0 {
+		// plasma for somebody who needs none: an embedded contract, the zero address, the sender's own contract call target
+		benAddr = []types.Address{types.PillarContract, types.PlasmaContract, types.TokenContract, types.ZeroAddress}[w.hrng.Intn(4)]
+		benName = "embedded:" + benAddr.String()[:12]
+		w.c.Count("fusions_for_an_embedded_or_zero_beneficiary", 1)
+	}
+	w.send(a, types.PlasmaContract, w.wrongToken(a, types.QsrTokenStandard, amt), amt, definition.ABIPlasma.PackMethodPanic(definition.FuseMethodName, benAddr), "Fuse("+benName+")", "")
 }
 
 func (w *c10World) actHtlcCreate() {
